@@ -27,7 +27,7 @@ def q(tier, quick, thorough):
 
 
 def recipe(c: Check):
-    c.build(["Properties/C19.vo", "Corr/C19.vo"], harness=["c19"])
+    c.build(["Properties/C19.vo", "Corr/C19.vo"], harness=["c19"], units=["c19reload"])
     c.obligations("C19")
     st = c.run_driver("health", q(c.tier, 260, 0), shards=q(c.tier, 4, 16), timeout=q(c.tier, 300, 1500))
     if st:
@@ -39,7 +39,7 @@ def recipe(c: Check):
     st2 = c.run_driver("reconcile", q(c.tier, 160, 1500), shards=q(c.tier, 4, 16), timeout=q(c.tier, 300, 1500))
     if st2:
         cc = c.cov.get("coq_counters", {}).get("reconcile", {})
-        for k in ("NKEPT", "NREPLACED", "NDUPLICATE", "NRETRIED", "NRUNNING"):
+        for k in ("NKEPT", "NREPLACED", "NDUPLICATE", "NRETRIED", "NRUNNING", "NWITHDRAWNWAITING"):
             if cc.get(k, 0) <= 0:
                 c.broken.append(dict(kind="coverage", name="reconcile driver never reached %s" % k,
                                      detail="the generated reload histories did not exercise a branch the property names"))
@@ -91,7 +91,10 @@ def recipe(c: Check):
              "reload sequences compared with the model (requests seen by the server, client status rows), continuity of an open "
              "tunnel connection across every reload that leaves its proxy unchanged, reloads placed while a NewProxyResp is "
              "outstanding (removed / changed / reordered / duplicate added / refused), convergence of server registrations and "
-             "client statuses afterwards; a failing scenario is repeated with 3x and 10x settling time and reported only if it fails "
+             "client statuses afterwards; service path (Service.UpdateAllConfigurer with proxies AND visitors): reload to the empty "
+             "visitor set, from empty, replace all, proxies to empty and back, outage + reload while the client retries + re-login, "
+             "identical reload — tables of the current Control compared with Model.ClientSvc, removed visitors' bind ports free, server "
+             "registrations = configured set; health-checked proxies with unset optional fields reloaded identically; a failing scenario is repeated with 3x and 10x settling time and reported only if it fails "
              "every time",
         assumptions=["probe outcome, clock and the result of proxy.Run()/visitor.Run() are operation arguments (oracles)",
                      "failedTimes is a uint64 in Go and an unbounded Z in the model (2^63 consecutive failures are out of reach)"])
